@@ -2,8 +2,8 @@
    bool option unit list prod sumbool sumor, Extract Inlined Constant andb/orb.
    No Extract Constant of our own; Z, positive, N, nat stay inductive. *)
 From Coq Require Import ExtrOcamlBasic.
-From FV Require Import F32 Ops Tape Lru Alloc Flatten F32Sem CtxEval Run01 Validate F32Eq SsaWf Simplify Interval F32Interval SimplifyValidate Bytecode Equiv FlattenPass2 Grad Ctx Expr Shapes Shapes32 Solver View View32 ShapeEval ShapeCheck ShapeEval32 Sched Render2 Render3 Render32 MeshCheck Script.
+From FV Require Import F32 Ops Tape Lru Alloc Flatten F32Sem CtxEval Run01 Validate F32Eq SsaWf Simplify Interval F32Interval SimplifyValidate Bytecode Equiv FlattenPass2 Grad Ctx Expr Shapes Shapes32 Solver Solver32 View View32 ShapeEval ShapeCheck ShapeEval32 Sched Render2 Render3 Render32 MeshCheck Script.
 Extraction Language OCaml.
 Extraction "model.ml"
   of_bits to_bits f32_sem reg_tape_new flatten arena_eval run_point eval_tape
-  lru_new lru_poke lru_pop check_alloc f32_eqb ssa_wf run_interval mk_interval trace_useful fsimplify reg_tape_alloc check_simplify bytecode_new decode check_equiv op_in_bounds run_fwd init_state itransform f32_fl arena_okb f32_grad_sem constant var op_unary build_bin import import_tree mk3 s_circle s_rectangle s_sphere s_box s_plane s_union s_intersection s_inverse s_difference s_blend s_move s_scale s_scale_uniform s_rotate s_reflect s_reflect_x s_reflect_y s_reflect_z s_reflect_xy s_revolve_y s_extrude_z s_loft_z s_repeat_x s_named_plane seed samples f_run2 f_run3 f_canvas2_new f_canvas3_new f_view2_w2m f_view3_w2m ftransform shape_point raster_task_count octree_task_count render2_32 render3_32 rtape_of geval_pt check_mesh run_wire vars_check.
+  lru_new lru_poke lru_pop check_alloc f32_eqb ssa_wf run_interval mk_interval trace_useful fsimplify reg_tape_alloc check_simplify bytecode_new decode check_equiv op_in_bounds run_fwd init_state itransform f32_fl arena_okb f32_grad_sem constant var op_unary build_bin import import_tree mk3 s_circle s_rectangle s_sphere s_box s_plane s_union s_intersection s_inverse s_difference s_blend s_move s_scale s_scale_uniform s_rotate s_reflect s_reflect_x s_reflect_y s_reflect_z s_reflect_xy s_revolve_y s_extrude_z s_loft_z s_repeat_x s_named_plane seed samples f_run2 f_run3 f_canvas2_new f_canvas3_new f_view2_w2m f_view3_w2m ftransform shape_point raster_task_count octree_task_count render2_32 render3_32 rtape_of geval_pt check_mesh run_wire vars_check done32.
